@@ -372,3 +372,30 @@ func fnName(fn *ssa.Function) string {
 func isOurPath(path string) bool {
 	return strings.HasPrefix(path, modPath) || path == "fixtures"
 }
+
+
+// fieldOwner finds the named struct type that declares field f.
+func (p *Prog) fieldOwner(f *types.Var) *types.Named {
+	if f.Pkg() == nil {
+		return nil
+	}
+	sc := f.Pkg().Scope()
+	for _, name := range sc.Names() {
+		tn, ok := sc.Lookup(name).(*types.TypeName)
+		if !ok {
+			continue
+		}
+		n, ok := tn.Type().(*types.Named)
+		if !ok {
+			continue
+		}
+		if st, ok := n.Underlying().(*types.Struct); ok {
+			for i := 0; i < st.NumFields(); i++ {
+				if st.Field(i) == f {
+					return n
+				}
+			}
+		}
+	}
+	return nil
+}
